@@ -23,6 +23,29 @@ NA = {
 }
 
 CHECKS = {
+    "C04": dict(
+        category="exploration", design_ref="DESIGN.md section 4, C04",
+        text="Every tighten_bounds() of every Bounded class is wrapped from outside; the engine is driven by the seeded "
+             "scheduler (public edit-API calls in orders diff() never produces, suspended generators, quiet flips) and "
+             "the monitor's own bounds() reads are scheduled events with per-run probability. Per object: intervals "
+             "never widen, True means strictly shrunk, False means single value, the finally reached value lies in "
+             "every interval shown, and the root converges within its initial width once the schedule stops. Matcher "
+             "and search are additionally run over simulated slow items.",
+        note="Trusted: the monitor; 'False iff definitive before the call' is not demanded; PossibleEdits/search over "
+             "real edits is outside the population; exceptions are C05's subject (aborted_other).",
+        technique="deterministic simulation: seeded engine-call schedules with scheduled observations, per-object "
+                  "interval invariants and bounded liveness"),
+    "C05": dict(
+        category="exploration", design_ref="DESIGN.md section 4, C05",
+        text="For each generated document pair a reference run (real diff(), default printer) fixes cost, canonical "
+             "script and annotations; 2-4 simulated runs with seeded schedules of public edit-API calls (incl. "
+             "suspended and resumed edits() iterators, quiet flips), printer configurations (quiet x colour x tty) and "
+             "clock profiles, plus macro schedules (quiet diff(), get_all_edit_contexts, edited_cost, exhaustion "
+             "without bounds reads), must end with the same cost and script and must not raise.",
+        note="Trusted: canonical serialisation as the meaning of 'same script'; hygiene between independent runs that "
+             "share a worker process; pairs stay within one document family.",
+        technique="deterministic simulation: seeded interleavings of the public edit API x printer/clock "
+                  "configurations vs. a reference run"),
     "C16": dict(
         category="exploration", design_ref="DESIGN.md section 4, C16",
         text="Seeded operation histories (plus every short suffix after three consolidated prefixes) drive the real "
